@@ -337,7 +337,7 @@ def _worker(task):
         if any(_has_quant(a) for a in sk):
             for mbqi in (False, True):
                 s1 = z3.Solver()
-                s1.set("timeout", timeout_ms if mbqi else min(timeout_ms, 3000))
+                s1.set("timeout", timeout_ms)
                 s1.set("smt.mbqi", mbqi)
                 for a in sk:
                     s1.add(a)
